@@ -141,6 +141,17 @@ class LambdaV(V):
         return "<" + ast.unparse(self.node) + ">"
 
 
+class LocalFuncV(V):
+    """a function defined inside the function under evaluation (`def render(field, order, /): ...`): a closure over the
+    enclosing frame, evaluated like any other function when it is called"""
+    def __init__(self, node, fr):
+        self.node, self.fr = node, fr
+        self.info = None
+
+    def __repr__(self):
+        return f"<local function {self.node.name}>"
+
+
 @dataclass(frozen=True)
 class RaiseV(V):
     exc: str
@@ -573,12 +584,14 @@ class Evaluator:
         return self.call_function(f, obj.cls, obj, list(args or []), dict(kwargs or {}))
 
     # ------------------------------------------------------------------ function inlining
-    def call_function(self, f: FuncInfo, recv_cls: ClassInfo | None, self_v, args: list, kwargs: dict, call_src=()):
+    def call_function(self, f: FuncInfo, recv_cls: ClassInfo | None, self_v, args: list, kwargs: dict, call_src=(), closure_env: dict | None = None):
         if self.stack.count(f) >= 2 or len(self.stack) > self.max_depth:
             return Sym("call", ("rec:" + f.qualname,) + tuple(args))
         if f.is_builder:
             return Sym("call", ("builder:" + f.qualname, self_v) + tuple(args))
         fr = Frame(f, recv_cls, self_v, f.module)
+        if closure_env:
+            fr.env.update(closure_env)       # a function defined inside another one sees the enclosing names
         params = list(f.params)
         node = f.node
         if f.cls is not None and not f.is_static and params:
@@ -594,6 +607,10 @@ class Evaluator:
             if d is not None:
                 dmap[a.arg] = d
         extra = []
+        if args and isinstance(args[-1], Sym) and args[-1].kind == "starred" and len(args) - 1 < len(params) and not f.vararg:
+            # f(*row) with a symbolic row: the remaining positional parameters are its items
+            row = args[-1].args[0]
+            args = list(args[:-1]) + [self.item(row, Const(i)) for i in range(len(params) - (len(args) - 1))]
         for i, v in enumerate(args):
             if i < len(params):
                 fr.env[params[i]] = v
@@ -803,6 +820,16 @@ class Evaluator:
             self.exec_for(st, fr)
         elif isinstance(st, ast.While):
             self.exec_while(st, fr)
+        elif isinstance(st, ast.Try):
+            self.exec_try(st, fr)
+        elif isinstance(st, ast.With):
+            # `with suppress(X): body` / any context manager: the body runs (an exception it swallows leaves the names the
+            # body binds at their earlier values: the alternative is kept)
+            for item in st.items:
+                v = self.eval(item.context_expr, fr)
+                if item.optional_vars is not None:
+                    self.assign(item.optional_vars, Sym("with", (v,)), fr, st)
+            self._alternatives(st.body, [[]], fr, ("with", fr.func.loc(st)))
         elif isinstance(st, ast.Pass):
             return
         elif isinstance(st, ast.Import):
@@ -822,7 +849,7 @@ class Evaluator:
             fr.continues.append((list(fr.live_cond), dict(fr.env)))
             fr.live = False
         elif isinstance(st, ast.FunctionDef):
-            fr.env[st.name] = Sym("localfunc", (st.name,))
+            fr.env[st.name] = LocalFuncV(st, fr) if not any(isinstance(n, (ast.Yield, ast.YieldFrom)) for n in ast.walk(st)) or True else Sym("localfunc", (st.name,))
         elif isinstance(st, ast.Assert):
             return
         else:
@@ -942,6 +969,33 @@ class Evaluator:
         else:
             fr.live = False
             fr.live_cond = lc0
+
+    def exec_try(self, st: ast.Try, fr: Frame):
+        """try / except / else / finally: the protected block followed by the else block, or -- under an opaque condition
+        per handler -- the handler started from the state before the try (what the protected block had already bound is
+        not kept: an under-approximation of the handler's view, stated here); finally runs after either"""
+        self._alternatives(list(st.body) + list(st.orelse), [list(h.body) for h in st.handlers], fr, ("raises", fr.func.loc(st)))
+        if st.finalbody and fr.live:
+            self.exec_block(st.finalbody, fr)
+
+    def _alternatives(self, main: list, others: list, fr: Frame, tag: tuple):
+        """run `main`, or one of `others` (each started from the state before `main`) under an opaque condition"""
+        env0 = dict(fr.env)
+        lc0 = list(fr.live_cond)
+        conds = [Sym("alt", tag + (i,)) for i in range(len(others))]
+        fr.live_cond = lc0 + [negate(c) for c in conds]
+        self.exec_block(main, fr)
+        acc_live, acc_env = fr.live, fr.env
+        for c, body in zip(conds, others):
+            fr.env, fr.live = dict(env0), True
+            fr.live_cond = lc0 + [c]
+            self.exec_block(body, fr)
+            if fr.live and acc_live:
+                acc_env = self.join_env(c, fr.env, acc_env)
+            elif fr.live:
+                acc_env, acc_live = fr.env, True
+        fr.env, fr.live = acc_env, acc_live
+        fr.live_cond = lc0
 
     def _none_refinement(self, test, fr: Frame):
         """`if x is None:` / `if (x := e) is None:` / `if not x:` on a local whose value is `A or None` by construction:
@@ -1157,6 +1211,8 @@ class Evaluator:
             return Sym("module", (r[1].name,))
         if r[1] in ("typing.cast", "copy.copy", "copy.deepcopy", "functools.reduce"):
             return Builtin(r[1].split(".")[-1])
+        if r[1] == "dataclasses.fields":
+            return Builtin("dcfields")
         return Sym("extern", (r[1],))
 
     def e_Attribute(self, e, fr):
@@ -1164,6 +1220,8 @@ class Evaluator:
         return self.getattr(base, e.attr, fr, e)
 
     def getattr(self, base, name: str, fr, node=None):
+        if isinstance(base, Sym) and base.kind == "dcfield" and name == "name":
+            return Const(base.args[0])
         if isinstance(base, Sym) and base.kind == "extern" and f"{base.args[0]}.{name}" in ("typing.cast", "copy.copy", "copy.deepcopy", "functools.reduce"):
             return Builtin(name)
         if isinstance(base, CtxV):
@@ -1414,6 +1472,14 @@ class Evaluator:
                     return Const(ka >= kb)
             except TypeError:
                 pass
+        # membership in a mapping whose keys are all known
+        if name in ("in", "not in") and isinstance(b, DictV) and ka is not _NO:
+            keys = [self.concrete(k_) for k_, _ in b.items]
+            if all(k_ is not _NO for k_ in keys):
+                try:
+                    return Const((ka in keys) == (name == "in"))
+                except TypeError:
+                    pass
         # object vs None
         if name in ("is", "is not") and isinstance(b, Const) and b.value is None and self._is_plain_value(a):
             return Const(name == "is not")
@@ -1423,6 +1489,55 @@ class Evaluator:
                 return r if name == "is not" else negate(r)
             return Const(name == "is not")
         return Sym("op", (name, a, b))
+
+    def _declared_scalar_attr(self, cls, name: str) -> bool:
+        """every store `self.<name> = ...` in the class hierarchy is declared as a plain scalar (`self.x: str = ...`, or
+        `self.x = <parameter annotated str>`); an undeclared store answers False"""
+        memo = self.p.__dict__.setdefault("_declared_scalar_attr", {})
+        key = (cls, name)
+        if key in memo:
+            return memo[key]
+        SCALARS = {"str", "int", "bool", "float", "bytes"}
+
+        def scalar(anno) -> bool:
+            if anno is None:
+                return False
+            if isinstance(anno, ast.Constant) and isinstance(anno.value, str):
+                try:
+                    anno = ast.parse(anno.value, mode="eval").body
+                except SyntaxError:
+                    return False
+            if isinstance(anno, ast.Name):
+                return anno.id in SCALARS
+            if isinstance(anno, ast.BinOp) and isinstance(anno.op, ast.BitOr):
+                parts = [anno.left, anno.right]
+                return all(scalar(x) or (isinstance(x, ast.Constant) and x.value is None) for x in parts) and any(scalar(x) for x in parts)
+            return False
+        stores = ok = 0
+        for k in cls.mro:
+            for f in k.methods.values():
+                if not f.params or f.is_static:
+                    continue
+                sn = f.params[0]
+                a_ = f.node.args
+                annos = {x.arg: x.annotation for x in list(a_.posonlyargs) + list(a_.args) + list(a_.kwonlyargs)}
+                for n in ast.walk(f.node):
+                    tgt = val = anno = None
+                    if isinstance(n, ast.AnnAssign):
+                        tgt, val, anno = n.target, n.value, n.annotation
+                    elif isinstance(n, ast.Assign) and len(n.targets) == 1:
+                        tgt, val = n.targets[0], n.value
+                    if not (isinstance(tgt, ast.Attribute) and tgt.attr == name and isinstance(tgt.value, ast.Name) and tgt.value.id == sn):
+                        continue
+                    stores += 1
+                    if anno is not None:
+                        ok += scalar(anno)
+                    elif isinstance(val, ast.Name) and val.id in annos:
+                        ok += scalar(annos[val.id])
+                    elif isinstance(val, ast.Constant) and isinstance(val.value, (str, int, float, bool)):
+                        ok += 1
+        memo[key] = stores > 0 and ok == stores
+        return memo[key]
 
     @staticmethod
     def _is_plain_value(v) -> bool:
@@ -1450,6 +1565,9 @@ class Evaluator:
         a, b = self.eval(e.left, fr), self.eval(e.right, fr)
         if isinstance(e.op, ast.Add):
             return self.add(a, b, fr, e)
+        if isinstance(e.op, ast.BitOr) and isinstance(a, DictV) and isinstance(b, DictV):
+            keys_b = [k for k, _ in b.items]
+            return DictV(tuple((k, v) for k, v in a.items if k not in keys_b) + tuple(b.items))
         if isinstance(e.op, ast.Mod) and isinstance(a, Const) and isinstance(a.value, str):
             return Str((Opaque("%-format", (s_lit(a.value),), self.src(fr, e), (b,)),))
         if isinstance(e.op, ast.Mult) and isinstance(a, Const) and isinstance(b, Const):
@@ -1524,11 +1642,18 @@ class Evaluator:
             decided = True
             for i in it.items:
                 self.assign(g.target, i.value, fr, e)
-                tv = [self.truth(self.as_cond(self.eval(c, fr))) for c in g.ifs]
-                if any(t is None for t in tv):
-                    decided = False
-                    break
-                if all(tv):
+                conds_ = [self.as_cond(self.eval(c, fr)) for c in g.ifs]
+                tv = [self.truth(c_) for c_ in conds_]
+                if any(t is False for t in tv):
+                    continue
+                open_ = [c_ for c_, t in zip(conds_, tv) if t is None]
+                if open_:
+                    # a known element kept under a test that is not decided here: a conditional item
+                    lc0 = list(fr.live_cond)
+                    fr.live_cond = lc0 + open_
+                    items.append(One(self.eval(e.elt, fr), conj(open_)))
+                    fr.live_cond = lc0
+                else:
                     items.append(One(self.eval(e.elt, fr)))
             fr.env = dict(saved)
             if decided:
@@ -1554,13 +1679,25 @@ class Evaluator:
         g = e.generators[0]
         it = self.consume_lazy(self.eval(g.iter, fr))
         saved = dict(fr.env)
-        if isinstance(it, ListV) and all(isinstance(i, One) and i.cond is None for i in it.items) and len(it.items) <= 16 and not g.ifs:
+        if isinstance(it, ListV) and all(isinstance(i, One) and i.cond is None for i in it.items) and len(it.items) <= 16:
             pairs = []
+            decided = True
             for i in it.items:
                 self.assign(g.target, i.value, fr, e)
-                pairs.append((self.eval(e.key, fr), self.eval(e.value, fr)))
-            fr.env = saved
-            return DictV(tuple(pairs))
+                keep = True
+                for c_ in g.ifs:
+                    tv = self.truth(self.as_cond(self.eval(c_, fr)))
+                    if tv is None:
+                        decided = False
+                        break
+                    keep = keep and tv
+                if not decided:
+                    break
+                if keep:
+                    pairs.append((self.eval(e.key, fr), self.eval(e.value, fr)))
+            fr.env = dict(saved)
+            if decided:
+                return DictV(tuple(pairs))
         self.assign(g.target, Sym("elem", (it,)), fr, e)
         filt = conj([self.eval(c, fr) for c in g.ifs]) if g.ifs else None
         k = self.eval(e.key, fr)
@@ -1645,6 +1782,13 @@ class Evaluator:
             return self.call_function(callee.func, callee.recv_cls, callee.bound, args, kwargs, self.src(fr, e))
         if isinstance(callee, Builtin):
             return self.call_builtin(callee.name, args, kwargs, e, fr)
+        if isinstance(callee, LocalFuncV):
+            if callee.info is None:
+                callee.info = FuncInfo(callee.fr.func.module if hasattr(callee.fr.func, "module") else callee.fr.module, callee.node, None)
+                callee.info.__dict__["_local_of"] = callee.fr.func
+            qn = f"{getattr(callee.fr.func, 'qualname', '?')}.<locals>.{callee.node.name}"
+            callee.info.__dict__["_qualname"] = qn
+            return self.call_function(callee.info, callee.fr.recv_cls, callee.fr.self_v, args, kwargs, self.src(fr, e), closure_env=dict(callee.fr.env))
         if isinstance(callee, LambdaV):
             if len(self.stack) > self.max_depth:
                 return Sym("call", (callee,) + tuple(args))
@@ -1666,11 +1810,37 @@ class Evaluator:
             if extra:
                 self.notes.append(("ctx-unknown-field", self.src(fr, e), extra))
             return CtxV(fields, False, "const")
+        if isinstance(callee, ClassRef) and self._is_record_class(callee.cls):
+            # typing.NamedTuple / @dataclass without a constructor of its own: the arguments are the fields, in declaration order
+            names = []
+            for kk in reversed(callee.cls.mro):
+                for n_ in kk.class_annos:
+                    if n_ not in names:
+                        names.append(n_)
+            attrs = {}
+            for n_, v_ in zip(names, args):
+                attrs[n_] = v_
+            for k_, v_ in kwargs.items():
+                if k_ in names:
+                    attrs[k_] = v_
+            for n_ in names:
+                if n_ not in attrs and n_ in callee.cls.class_attrs:
+                    attrs[n_] = self.eval_in_module(callee.cls.class_attrs[n_], callee.cls.module)
+            if all(n_ in attrs for n_ in names):
+                return Obj(callee.cls, attrs, "new " + callee.cls.name)
         if isinstance(callee, ClassRef):
             return Sym("new", (callee.cls.qualname,) + tuple(args) + tuple(Sym("kw", (k, v)) for k, v in kwargs.items()))
         if isinstance(callee, Phi):
             return self.merge(callee.cond, self.call_value(callee.a, args, kwargs, e, fr), self.call_value(callee.b, args, kwargs, e, fr))
         return Sym("call", (callee,) + tuple(args))
+
+    @staticmethod
+    def _is_record_class(c) -> bool:
+        if any(k.methods.get("__init__") is not None or k.methods.get("__new__") is not None for k in c.mro):
+            return False
+        ext = {b.rsplit(".", 1)[-1] for k in c.mro for b in k.extern_bases}
+        decos = {d.rsplit(".", 1)[-1] for d in getattr(c, "decorators", [])}
+        return "NamedTuple" in ext or "dataclass" in decos
 
     def call_builtin(self, name, args, kwargs, e, fr):
         a0 = args[0] if args else None
@@ -1687,6 +1857,28 @@ class Evaluator:
                 if sf is not None:
                     return self.call_function(sf, a0.cls, a0, [], {}, self.src(fr, e))
             return Str((Hole(a0, "str", self.src(fr, e)),))
+        if name == "dcfields" and len(args) == 1 and isinstance(a0, (ClassRef, Obj)):
+            k_ = a0.cls
+            names_ = []
+            for kk in reversed(k_.mro):
+                for n_ in kk.class_annos:
+                    if n_ not in names_:
+                        names_.append(n_)
+            return ListV(tuple(One(Sym("dcfield", (n_,))) for n_ in names_), "tuple")
+        if name == "reduce" and len(args) in (2, 3):
+            seq = self.consume_lazy(args[1])
+            if isinstance(seq, ListV) and all(isinstance(i, One) and i.cond is None for i in seq.items) and len(seq.items) <= 16:
+                vals = [i.value for i in seq.items]
+                if len(args) == 3:
+                    acc = args[2]
+                elif vals:
+                    acc, vals = vals[0], vals[1:]
+                else:
+                    acc = None
+                if acc is not None:
+                    for v_ in vals:
+                        acc = self.call_value(args[0], [acc, v_], {}, e, fr)
+                    return acc
         if name in ("copy", "deepcopy") and len(args) == 1:
             # a duplicate renders like its original; a concrete object is cloned so that stores to the clone stay on it
             if isinstance(a0, Obj) and not a0.root:
@@ -1714,6 +1906,14 @@ class Evaluator:
         if name == "hasattr" and len(args) == 2 and isinstance(args[1], Const):
             if (self._is_plain_value(a0) or isinstance(a0, (Str, Const))) and args[1].value in ("get_sql", "nodes_", "replace_table"):
                 return Const(False)
+            if args[1].value in ("get_sql", "nodes_", "replace_table"):
+                b0 = a0
+                if isinstance(b0, Sym) and b0.kind == "attr" and b0.args[1] == "value" and isinstance(b0.args[0], Sym):
+                    b0 = b0.args[0]         # the value of a member of a str/int-mixin Enum is of the mixed-in type
+                if isinstance(b0, Sym) and b0.kind == "attr" and isinstance(b0.args[0], Obj) and self._declared_scalar_attr(b0.args[0].cls, b0.args[1]):
+                    return Const(False)     # `self.escape: str`: the declared type of the attribute has no such method
+                if isinstance(a0, Sym) and a0.kind == "call" and a0.args and a0.args[0] in (".isoformat", ".dumps"):
+                    return Const(False)     # datetime.isoformat() / json.dumps(): text whatever the receiver is
             if isinstance(a0, Obj):
                 nm = args[1].value
                 if nm in getattr(a0, "absent", ()):
@@ -1820,6 +2020,14 @@ class Evaluator:
         return out
 
     def isinstance(self, v, spec):
+        if isinstance(v, (ListV, DictV)) and not (isinstance(v, ListV) and v.kind == "gen"):
+            # a container built by the code under evaluation: its Python type is known
+            names = self._spec_names(spec)
+            if names is not None:
+                own = {"dict", "Mapping", "MutableMapping"} if isinstance(v, DictV) else {{"list": "list", "tuple": "tuple", "set": "set"}.get(v.kind, "list"), "Sequence", "Iterable", "Collection"}
+                if isinstance(v, ListV) and v.kind == "set":
+                    own = {"set", "Iterable", "Collection"}
+                return Const(bool(names & own))
         if isinstance(v, Sym) and v.kind == "typed":
             names = self._spec_names(spec)
             if names is not None:
